@@ -593,6 +593,34 @@ def rule_completion_semantics(ctx):
             r.check(got - {"solve"} == want and bool(want), b.id + "|completion", "producers=%s want=%s" % (sorted(got), sorted(want)), "completion uses %s, like compute_one_extension" % sorted(want), "the certificate is completed on the other components with %s, but this solver's extensions are computed with %s: the completed set need not be an extension under the queried semantics" % (sorted(got), sorted(want)), drains[0].loc())
         else:
             r.check(got == {"grounded_extension"}, b.id + "|completion", "producers=%s" % sorted(got), "completion uses grounded extensions (complete)", "a solver without single-extension computation completes its certificate with %s" % sorted(got), drains[0].loc())
+        # every argument added to the certificate inside the loop comes out of such a computation (no side door)
+        adds = [s for s in b.calls() if s.bb in blocks and callee_decl(callee_of(s)) in ("alloc::vec::Vec::push", "alloc::vec::Vec::append", "core::iter::traits::collect::Extend::extend", "alloc::vec::Vec::extend_from_slice")]
+        for x in prog.closures_of(b):
+            par_site = None
+            for ps in b.sites():
+                nd = ps.node
+                if ps.si is not None and nd["k"] == "assign" and nd["rv"]["k"] == "aggregate" and nd["rv"]["agg"].get("kind") == "closure" and nd["rv"]["agg"].get("path") == x.path and ps.bb in blocks:
+                    par_site = ps
+            if par_site is not None:
+                adds += [s for s in x.calls() if callee_decl(callee_of(s)) == "alloc::vec::Vec::push"]
+        for ai, a in enumerate(adds):
+            ab = a.body
+            # certificate vectors only: Vec<&Argument<T>> / Vec<&Label<T>>
+            tyv = ab.local_ty(_root_local(ab, a.node["args"][0])) if ab is b else "alloc::vec::Vec<&"
+            if "Label<" not in tyv and "Argument<" not in tyv and ab is b:
+                continue
+            src = a.node["args"][1]
+            seen, calls, _ = data_deps(ab, src)
+            from_producer = any(callee_matches(callee_of(c), PRODUCERS) for c in calls)
+            if ab is not b:
+                # the closure's element parameter: what the parent iterates
+                for ps in b.calls():
+                    pc = callee_of(ps)
+                    if pc and ab.path in (pc.get("fn_args") or []):
+                        _, c2, _ = data_deps(b, ps.node["args"][0])
+                        if any(callee_matches(callee_of(c), PRODUCERS) for c in c2):
+                            from_producer = True
+            r.check(from_producer, "%s|added#%d" % (b.id, ai), "not-from-extension-computation", "what is added to the certificate comes out of the extension computation of that component", "arguments are added to the certificate of another component without computing an extension of that component (%s)" % a.loc(), a.loc())
     r.floor(n, 4, "certificate completion loops")
 
 
@@ -820,3 +848,51 @@ def _root_local(b, op):
             continue
         break
     return l
+
+
+def rule_certificate_from_maximal_state(ctx):
+    prog = ctx.prog
+    r = ctx.rule(
+        "certificate-from-maximal-state",
+        "in the dynamic solvers a set read from a maximal-extension computer (`current()`) becomes a certificate (`Some(..)` returned / cached) only "
+        "in the computer's Maximal state: an intermediate set is admissible but need not be an extension of the semantics",
+    )
+    st = prog.adt("solvers::maximal_extension_computer::MaximalExtensionComputerState")
+    if not r.require_anchor(st, "MaximalExtensionComputerState"):
+        return
+    idx = {str(v["idx"]): v["name"] for v in st["variants"]}
+    n = 0
+    for b in sorted(prog.lib_bodies(), key=lambda x: x.id):
+        fn = prog.enclosing_fn(b)
+        if not (fn.path.startswith("dynamics::") or "<dynamics::" in fn.path.split(" as ")[0]):
+            continue
+        cur = [s for s in b.calls() if callee_matches(callee_of(s), r"MaximalExtensionComputer::(current|take_current)$")]
+        if not cur:
+            continue
+        # Some(..) aggregates of certificate type fed by a current() result
+        for s in b.sites():
+            nd = s.node
+            if s.si is None or nd["k"] != "assign" or nd["rv"]["k"] != "aggregate" or nd["rv"]["agg"].get("variant") != "Some":
+                continue
+            if "Vec<&" not in b.local_ty(nd["dst"]["l"]):
+                continue
+            _, calls, _ = data_deps(b, nd["rv"]["ops"][0])
+            srcs = [c for c in calls if any((c.bb, c.si) == (x.bb, x.si) for x in cur) and (c.bb == s.bb or b.reaches(c.bb, s.bb))]
+            if not srcs:
+                continue
+            n += 1
+            states = None
+            for c in conditions(b, s.bb):
+                if c.is_discr and "MaximalExtensionComputerState" in place_ty_of(b, c.place):
+                    vs = {idx.get(v, v) for v in c.values}
+                    if c.negated:
+                        vs = set(idx.values()) - vs
+                    states = vs if states is None else states & vs
+            r.check(states == {"Maximal"}, "%s|certificate#%d" % (b.id, n), "state:%s" % (sorted(states) if states else None), "the certificate is the computer's set in state Maximal", "a set taken from the computer in state %s is returned as a certificate: it need not be maximal" % (sorted(states) if states else "unknown"), s.loc())
+    r.floor(n, 1, "certificates taken from a maximal-extension computer in the dynamic solvers")
+
+
+def place_ty_of(body, place):
+    from .satlayer import place_ty
+
+    return place_ty(body, place)
